@@ -1,6 +1,7 @@
 CONSTANTS
   Dev = {"D_b64_push_after_badpad", "D_b64_illegal_not_latched"}
   MaxLen = 6
+  Deep32 = FALSE
   MaxOct = 2
 SPECIFICATION Spec
 INVARIANT MachineEqualsFunction
